@@ -6,6 +6,7 @@ import (
 	"fmt"
 	"runtime"
 	"strings"
+	"time"
 
 	skywaykeeper "github.com/palomachain/paloma/v2/x/skyway/keeper"
 	"verifsim/core"
@@ -126,6 +127,14 @@ func c01(r *core.Run) []*core.Violation {
 				fp.k = 1 + t.Intn(12)
 			}
 			fp.outage = t.Draw(3) == 2
+			if w.OpenBatches > 0 && t.Draw(3) == 1 {
+				// let the collaborator fail in the very block in which open batches time out (cancellation under fault)
+				w.Sim.ForceJump = time.Duration(11+t.Intn(30)) * time.Minute
+				if t.Draw(3) != 0 {
+					// the cancellation's own collaborator calls come late in the block: take the collaborator down for all of it
+					fp.method, fp.k, fp.outage = []string{"evm.GetChainInfo", "bank.SendCoinsFromModuleToAccount"}[t.Intn(2)], 1, true
+				}
+			}
 			fp.sites = nil
 			fp.panic = t.Draw(8) == 7
 			fp.count = map[string]int{}
